@@ -6,7 +6,7 @@ pub fn meta() -> PropertyMeta {
     PropertyMeta {
         id: "C16",
         level: "exploration",
-        rule: "histories of 1..30 messages over the full minimal device: *ESE / *SRE with 0..255 (every single bit, random masks; 256, -1, 1000 as rejects) and their queries, *ESR?, *STB?, *CLS, *OPC, *OPC?, *TST? (self-test scripted to pass or fail with a chosen code), *RST, *WAI, *IDN?, failing messages of every class, status-subsystem writes, device-side condition changes, and the message-available flag chosen per message. Oracle: 488.2 status model (bit 2 queue non-empty, bits 3/7 QUES/OPER summary as the crate documents it, bit 4 MAV, bit 5 ESR&ESE, bit 6 any of those enabled in SRE); responses of *STB? *ESE? *SRE? *ESR? *OPC? *TST? and the registers compared after every message. Plus histories that queue 250..520 items with *STB? after each item around the 256 and 512 marks. Added: EVERY *ESE value x *SRE values (12 in the quick tier, all 256 in the thorough tier) x every subset of the settable ESR bits with *STB? before and after *ESR?; queues of 65540 .. 131080 items with *STB? at the 2^16 / 2^17 marks. Non-trivial: a history in which at least 3 of the five status-byte inputs are non-zero at some *STB?, with the MAV flag both ways across the run.",
+        rule: "histories of 1..30 messages over the full minimal device: *ESE / *SRE with 0..255 (every single bit, random masks; 256, -1, 1000 as rejects) and their queries, *ESR?, *STB?, *CLS, *OPC, *OPC?, *TST? (self-test scripted to pass or fail with a chosen code), *RST, *WAI, *IDN?, failing messages of every class, status-subsystem writes, device-side condition changes, and the message-available flag chosen per message. Oracle: 488.2 status model (bit 2 queue non-empty, bits 3/7 QUES/OPER summary as the crate documents it, bit 4 MAV, bit 5 ESR&ESE, bit 6 any of those enabled in SRE); responses of *STB? *ESE? *SRE? *ESR? *OPC? *TST? and the registers compared after every message. Plus histories that queue 250..520 items with *STB? after each item around the 256 and 512 marks. Added: EVERY *ESE value x *SRE values (12 in the quick tier, all 256 in the thorough tier) x every subset of the settable ESR bits with *STB? before and after *ESR?; queues of 65540 .. 131080 items with *STB? at the 2^16 / 2^17 marks. Stored messages executed from inside a handler (nested Node::run on the same device and context) appear in one step in six. Non-trivial: a history in which at least 3 of the five status-byte inputs are non-zero at some *STB?, with the MAV flag both ways across the run.",
         assumptions: &["the QUES/OPER summary bit follows the crate's documented definition (condition & enable), since the property does not define it"],
         run,
     }
